@@ -27,6 +27,8 @@ def score(candidate: Raw, rankings: List[Raw], pen) -> float:
     b, t = pen
     pos = {e: i for i, bk in enumerate(candidate) for e in bk}
     elems = sorted(pos, key=repr)
+    if any(e not in pos for r in rankings for bk in r for e in bk):
+        return float("nan")         # not a candidate over the universe: no score
     tot = 0.0
     for r in rankings:
         for x, y in itertools.combinations(elems, 2):
@@ -122,7 +124,7 @@ def respects(c: Raw, partition: List[Set]) -> bool:
         for j in range(i + 1, len(partition)):
             for x in partition[i]:
                 for y in partition[j]:
-                    if not pos[x] < pos[y]:
+                    if x not in pos or y not in pos or not pos[x] < pos[y]:
                         return False
     return True
 
